@@ -16,11 +16,14 @@ git apply "$PATCH"
 go build ./... || { echo "$P-$NAME: DOES-NOT-BUILD"; git checkout -q -- .; rm -f seed_demo_test.go; exit 4; }
 go test -vet=off -count=1 -run 'TestSeedDemo' . > $SRC/demo_mut.log 2>&1; RC_MUT=$?
 rm -f seed_demo_test.go
-go test -vet=off -count=1 ./... > $SRC/suite_mut.log 2>&1; RC_SUITE=$?
-for try in 1 2 3; do
-  # the repository's proxy/TLS dial tests flake under load on the pristine tree as well: retry
-  if [ $RC_SUITE -ne 0 ]; then sleep 2; go test -vet=off -count=1 ./... > $SRC/suite_mut.log 2>&1; RC_SUITE=$?; fi
+# the suite, with the proxy/TLS dial tests (which flake under load on the pristine tree too) run separately with retries
+go test -vet=off -count=1 -skip 'TestHTTPS?Proxy|TestTLSValidationErrors' ./... > $SRC/suite_mut.log 2>&1; RC_SUITE=$?
+RC_FLAKY=1
+for try in 1 2 3 4 5 6 7 8; do
+  go test -vet=off -count=1 -run 'TestHTTPS?Proxy|TestTLSValidationErrors' . >> $SRC/suite_mut.log 2>&1 && { RC_FLAKY=0; break; }
+  sleep 1
 done
+[ $RC_FLAKY -ne 0 ] && RC_SUITE=1
 git checkout -q -- .; git clean -fdq
 echo "$P-$NAME: demo_clean=$RC_CLEAN demo_mut=$RC_MUT suite_mut=$RC_SUITE"
 if [ $RC_CLEAN -eq 0 ] && [ $RC_MUT -ne 0 ] && [ $RC_SUITE -eq 0 ]; then
